@@ -53,6 +53,8 @@ type World struct {
 	Behav     map[string]*NodeBehaviour
 	Coop      bool // cooperative kubelet: ignore hostile knobs
 	nestSteps []string
+	// phaseStart: virtual instant at which the current cooperative phase began
+	phaseStart time.Time
 	// ActsAfterFailedRead: see observeActsAfterFailedRead
 	ActsAfterFailedRead []string
 	// MaxLivePerNode / MaxLiveWitness: see observeLivePods
